@@ -1860,8 +1860,55 @@ func wireListEndianUnconditional(w *World, wc *wireCtx, r *Report, prop string) 
 				}
 			}
 			return out, true
+		case *ssa.Parameter:
+			// whatever is handed in: one fixed text, the same under both assumptions
+			return map[string]bool{"\u2039" + x.Name() + "\u203a": true}, true
+		case *ssa.BinOp:
+			if x.Op != token.ADD || !isStringType(x.Type()) {
+				return nil, false
+			}
+			l, ok1 := possible(x.X, le, depth+1, seen)
+			rr, ok2 := possible(x.Y, le, depth+1, seen)
+			if !ok1 || !ok2 || len(l)*len(rr) > 32 {
+				return nil, false
+			}
+			out := map[string]bool{}
+			for a := range l {
+				for b := range rr {
+					out[a+b] = true
+				}
+			}
+			return out, true
 		case *ssa.Call:
 			f := x.Call.StaticCallee()
+			if f != nil && f.String() == "fmt.Sprintf" && len(x.Call.Args) == 2 {
+				// the text pieces filled into the format, in order (the format itself is the same under both assumptions)
+				out := map[string]bool{"": true}
+				for _, o := range variadicOperands(x.Call.Args[1]) {
+					if o == nil {
+						continue
+					}
+					o = stripIdentity(o)
+					if !isStringType(o.Type()) {
+						continue
+					}
+					s, ok := possible(o, le, depth+1, seen)
+					if !ok {
+						s = map[string]bool{"\u2039?\u203a": true}
+					}
+					if len(out)*len(s) > 32 {
+						return nil, false
+					}
+					next := map[string]bool{}
+					for a := range out {
+						for b := range s {
+							next[a+"|"+b] = true
+						}
+					}
+					out = next
+				}
+				return out, true
+			}
 			if f == nil || f.Blocks == nil || f.Pkg != w.Parser || !isStringType(x.Type()) {
 				return nil, false
 			}
